@@ -14,6 +14,7 @@ import h3
 from . import seed, tier
 from .enumrun import pmap, rotate
 from .nets import build, dijkstra, link_positions, reference_graph
+from .nets import stopping_positions
 from .report import Check, Finding, log
 from nrel.hive.model.entity_position import EntityPosition
 
@@ -89,6 +90,11 @@ def _c13_shard(shard) -> Dict[str, Any]:
         if mode == "all_positions":
             poss = [p for lid in link_ids for p in link_positions(rn, lid)]
             pairs = list(itertools.product(poss, poss))
+            # positions as a MOVING vehicle carries them: the cells the library itself stops a vehicle on when a step ends inside
+            # a link (not always a cell of the link's own cell line), as origins and as destinations
+            stops = [p for lid in link_ids for p in stopping_positions(rn, lid)]
+            anchors = [p for lid in link_ids for p in link_positions(rn, lid, ("start", "middle", "end"))]
+            pairs += list(itertools.product(stops, anchors)) + list(itertools.product(anchors, stops))
         else:  # big graph: all link pairs at (start -> end) plus all position pairs on each link and its reverse
             pairs = []
             ends = {lid: link_positions(rn, lid, ("start", "end")) for lid in link_ids}
@@ -223,6 +229,11 @@ def _c14_shard(shard) -> Dict[str, Any]:
             continue
         dist = dijkstra(g, u)
         lo = rn.link_from_link_id(in_link[u])
+        if lo is not None:
+            # ordinary use of the long-lived network object between route queries: distance queries, also between a place and itself
+            rn.distance_by_geoid_km(lo.start, lo.start)
+            rn.distance_by_geoid_km(lo.start, lo.end)
+            rn.distance_by_geoid_km(lo.end, lo.end)
         if lo is None:
             # a street of the input graph is unknown to the network built from it: no route can start there
             out["nfindings"] += 1
@@ -284,6 +295,7 @@ def c14_networks(quick: bool):
     for bits in itertools.product((10, 100), repeat=7):
         nets.append(("grid", tuple(bits), (1,) * 7, ()))
     nets += [("ring",), ("deadend",), ("parallel",), ("connector", 12), ("connector", 15), ("grid", (10, 100, 40, 10, 100, 40, 10), (1, 1.5, 1, 1, 1.5, 1, 1), (1, 2))]
+    nets += [("unlabelled", 15.0), ("unlabelled", 40.0), ("unlabelled", 90.0)]  # streets without a speed label under three default speeds
     if not quick:
         # three speed classes on every street (3^7 assignments) for both length patterns, and the two-speed assignments again
         # with two one-way streets (the graph stays strongly connected)
